@@ -187,6 +187,7 @@ class Interp(object):
         self.inline_via = []
         self.fold = fold
         self.cond_stack = []
+        self.loop_stack = []
 
     # ---------------------------------------------------------------- bookkeeping
     def site(self, node):
@@ -361,9 +362,11 @@ class Interp(object):
         elif isinstance(s, ast.While):
             self.ev(s.test, fr)
             before = _copy_env(env)
+            self.loop_stack.append([])
             self.exec_block(s.body, fr)
-            env.pop("__dead__", None)
-            merged = self.join_envs([before, env])
+            exits = self.loop_stack.pop()
+            dead = env.pop("__dead__", None)
+            merged = self.join_envs([before] + ([] if dead else [env]) + exits)
             env.clear()
             env.update(merged)
         elif isinstance(s, ast.With):
@@ -414,7 +417,12 @@ class Interp(object):
                     env.pop(t.id, None)
                 else:
                     self.unsupported("delete target", s, fr)
-        elif isinstance(s, (ast.Pass, ast.Break, ast.Continue, ast.Import, ast.ImportFrom, ast.Global, ast.Nonlocal)):
+        elif isinstance(s, (ast.Break, ast.Continue)):
+            # the rest of the iteration is skipped: this state flows to the end of the loop body
+            if self.loop_stack:
+                self.loop_stack[-1].append(_copy_env(env))
+                env["__dead__"] = True
+        elif isinstance(s, (ast.Pass, ast.Import, ast.ImportFrom, ast.Global, ast.Nonlocal)):
             pass
         elif isinstance(s, ast.Assert):
             self.ev(s.test, fr)
@@ -460,7 +468,14 @@ class Interp(object):
             # a loop over a literal collection (e.g. a rename table): unrolled
             for item in it.items:
                 self.assign(s.target, item, fr, s)
+                self.loop_stack.append([])
                 self.exec_block(s.body, fr)
+                exits = self.loop_stack.pop()
+                if exits:
+                    dead = env.pop("__dead__", None)
+                    merged = self.join_envs(([] if dead else [_copy_env(env)]) + exits)
+                    env.clear()
+                    env.update(merged)
                 if env.get("__dead__"):
                     return
             if s.orelse:
@@ -476,8 +491,15 @@ class Interp(object):
             for nm, (kind, _) in self.decl.ref_inputs().items():
                 if kind == "cmdlist":
                     ST = ST | toks(nm, part)
+        self.loop_stack.append([])
         self.exec_block(s.body, fr)
+        exits = self.loop_stack.pop()
         dead = env.pop("__dead__", None)
+        if exits:
+            # `continue` / `break`: iterations that skip the rest of the body end in these states
+            merged = self.join_envs(([] if dead else [_copy_env(env)]) + exits)
+            env.clear()
+            env.update(merged)
         for name in list(env):
             b = before.get(name)
             a = env[name]
@@ -755,6 +777,22 @@ class Interp(object):
             hidden_only = True
         if hidden_only:
             return base
+        if isinstance(v, Arr) and not v.isbool and not base.isbool:
+            # A4': an item store casts to the target's dtype silently (a float layer stored into an integer buffer is truncated)
+            pinned = bool(base.dtprov) and not base.D and bool(v.dtprov) and not (v.dtprov <= base.dtprov)
+            if pinned:
+                # a buffer created with the element type of some inputs only (dtype=x.dtype, empty_like(x)) receives other inputs
+                self.res.findings.append(("dtype", getattr(tnode, "lineno", 0), "item store `%s = ...`: the buffer's element type is that of %s only, while values of %s are cast into it silently (an integer or narrower first input truncates the others), so the outcome depends on the element types and order of the inputs"
+                                          % (_src(tnode), sorted(base.dtprov), sorted(v.dtprov - base.dtprov)), self.fkey(fr), tnode))
+            for kt in base.dt if not pinned else ():
+                for ko in v.dt:
+                    if RANK[ko] > RANK[kt] and not (base.dtprov and base.dtprov == v.dtprov and len(base.dtprov) == 1):
+                        self.res.findings.append(("dtype", getattr(tnode, "lineno", 0), "item store `%s = ...`: the target may be %s (dtype from %s) while the stored array may be %s; numpy casts silently, so values are truncated and the outcome depends on the element types and order of the inputs"
+                                                  % (_src(tnode), _DT[kt], sorted(base.dtprov) or "a fresh array", _DT[ko]), self.fkey(fr), tnode))
+                        break
+                else:
+                    continue
+                break
         M = base.M
         if base.kind == "masked":
             # A9 (amended): a store of an unmasked value clears the (soft) mask at the selected cells.  Cells whose *index*
@@ -1742,6 +1780,10 @@ class ArrayInterp(Interp):
             dt = base.dt
             if isinstance(t, Other) and t.tag == "type":
                 dt = {"builtins.float": F_, "builtins.int": I_, "builtins.bool": B_}.get(t.info, IF_)
+            cp = K.get("copy")
+            if isinstance(cp, Other) and cp.tag == "bool" and cp.info is False:
+                # astype(copy=False) returns the array itself whenever the element type already matches
+                return replace(base, alias=base.alias | self.S(e), dt=dt, dtprov=E)
             return replace(base, alias=self.S(e), dt=dt, dtprov=E, maskof=E, dataof=E)
         if meth == "compressed":
             return replace(base, kind="plain", M=E, shape="flat", alias=self.S(e), maskof=E, dataof=E)
@@ -1863,18 +1905,22 @@ class ArrayInterp(Interp):
                 shp = a0.shape
             dtv = K.get("dtype")
             dt = F_
+            dtprov = E
             if isinstance(dtv, Other) and dtv.tag == "type":
                 dt = {"builtins.float": F_, "builtins.int": I_, "builtins.bool": B_}.get(dtv.info, IF_)
+            elif isinstance(dtv, Other) and dtv.tag == "dtype" and isinstance(dtv.info, Arr):
+                # dtype=other.dtype: the buffer's element type is pinned to that array's
+                dt, dtprov = dtv.info.dt, dtv.info.dtprov
             elif "full" in qn and dtv is None and len(A) > 1 and isinstance(A[1], Scal):
                 dt = A[1].dt
             elif "_like" in qn and isinstance(a0, Arr) and dtv is None:
-                dt = a0.dt
+                dt, dtprov = a0.dt, a0.dtprov
             D = E
             Pg = E
             if "full" in qn and len(A) > 1 and isinstance(A[1], Scal):
                 D, Pg = A[1].D, A[1].Pg
             masked = ".ma." in qn
-            return Arr(kind="masked" if masked else "plain", alias=S(), shape=shp, dt=dt, D=D, Pg=Pg, constmask=masked)
+            return Arr(kind="masked" if masked else "plain", alias=S(), shape=shp, dt=dt, dtprov=dtprov, D=D, Pg=Pg, constmask=masked)
         if qn in ("numpy.ma.masked_values", "numpy.ma.masked_equal", "numpy.ma.masked_where", "numpy.ma.masked_object", "numpy.ma.masked_invalid",
                   "numpy.ma.masked_less", "numpy.ma.masked_greater", "numpy.ma.masked_less_equal", "numpy.ma.masked_greater_equal", "numpy.ma.masked_not_equal",
                   "numpy.ma.masked_inside", "numpy.ma.masked_outside"):
@@ -1896,6 +1942,10 @@ class ArrayInterp(Interp):
                 m = Arr(kind="plain", isbool=True, alias=S(), M=E, shape=x.shape, dt=B_, cmp=(x.alias | x.dataof, op, scal_id(val), x.sel))
             cp = K.get("copy")
             fresh = not (isinstance(cp, Other) and cp.info is False)
+            if not fresh and x.kind == "masked":
+                # copy=False builds a view sharing the mask buffer and then assigns `.mask`: the (soft) mask setter writes the
+                # new mask into the shared buffer, so the argument's own missing cells change
+                self.write_site(x, e, "mask store through %s(copy=False)" % name, fr)
             out = replace(x, kind="masked", alias=S() if fresh else x.alias | S(), M=(x.M if x.kind == "masked" else E) | (m.M if isinstance(m, Arr) else E), maskof=E, dataof=E,
                           rng=(None, None), constmask=False, Pc=x.Pc | (m.Pc if isinstance(m, Arr) else E))
             self.res.maskstores.append((e.lineno, out, m, e, self.fkey(fr)))
@@ -2061,6 +2111,9 @@ class ArrayInterp(Interp):
                   "numpy.mean", "numpy.std", "numpy.var", "numpy.sum", "numpy.min", "numpy.max", "numpy.amin", "numpy.amax", "numpy.median", "numpy.average",
                   "numpy.nanmean", "numpy.nanmin", "numpy.nanmax", "numpy.nanstd", "numpy.ptp", "numpy.prod", "numpy.ma.prod", "numpy.ma.count", "numpy.any", "numpy.all"):
             meth = qn.split(".")[-1].replace("nan", "").replace("amin", "min").replace("amax", "max").replace("average", "mean")
+            if isinstance(a0, Lst) and a0.what in ("arrs", "masks") and (K.get("axis") is not None or len(A) > 1):
+                # A21: a list of arrays is stacked first - numpy.ma.* keeps one mask per layer, numpy.* drops the masks
+                a0 = self.builtin("numpy.ma.array" if qn.startswith("numpy.ma.") else "numpy.array", e, [a0], {}, fr)
             if isinstance(a0, Arr):
                 ax = K.get("axis", A[1] if len(A) > 1 else None)
                 if ax is None or (isinstance(ax, Other) and ax.tag == "none"):
@@ -2071,6 +2124,16 @@ class ArrayInterp(Interp):
                 return Scal(D=el.D, Pg=el.Pg)
             if isinstance(a0, Scal):
                 return a0
+            return Scal()
+        if qn.endswith(".reduce") and qn.split(".")[-2] in ("minimum", "maximum", "add", "multiply", "logical_or", "logical_and", "bitwise_or", "bitwise_and", "fmin", "fmax"):
+            # ufunc.reduce: A21 - given a list, even numpy.ma.<ufunc>.reduce converts it with numpy.array(): masks are dropped
+            if isinstance(a0, Lst) and a0.what in ("arrs", "masks"):
+                a0 = self.builtin("numpy.array", e, [a0], {}, fr)
+            if isinstance(a0, Arr):
+                ax = K.get("axis", A[1] if len(A) > 1 else Scal(dt=I_, const=0))
+                if isinstance(ax, Other) and ax.tag == "none":
+                    return self.reduce_scalar(a0, qn.split(".")[-2], e, fr)
+                return self.axis_reduce(a0, ax, e, fr, {"minimum": "min", "maximum": "max", "add": "sum", "multiply": "prod", "fmin": "min", "fmax": "max"}.get(qn.split(".")[-2], qn.split(".")[-2]))
             return Scal()
         if qn in ("numpy.unique", "numpy.ma.unique"):
             if isinstance(a0, Arr):
